@@ -17,11 +17,12 @@ RClass == {"file:open", "file:exec", "file:link", "file:mknod", "file:chmod", "f
 Masks == {"r", "w", "rw", "a", "c", "d", "wc", "x", "m", "rm", "k", "l", "wr", "ac"}
 Verdicts == {"ALLOWED", "DENIED", "AUDIT"}
 
-\* histories (C16): several records of ONE profile on two paths, with masks whose letters collapse (wc, ac, wd -> w)
+\* histories (C16): several records of ONE profile on two paths, by the owner or by someone else, with
+\* masks whose letters collapse (wc, ac, wd -> w)
 MaxH == IF "VERIF_HIST_LEN" \in DOMAIN IOEnv THEN atoi(IOEnv.VERIF_HIST_LEN) ELSE 3
 HMasks == {"r", "w", "wc", "ac", "wd", "wrc", "k"}
 ExtendH == /\ mode = "hist" /\ Len(rec) < MaxH
-           /\ \E p \in 1..2, m \in HMasks : rec' = Append(rec, [p |-> p, mask |-> m])
+           /\ \E p \in 1..2, m \in HMasks, o \in BOOLEAN : rec' = Append(rec, [p |-> p, mask |-> m, own |-> o])
            /\ UNCHANGED mode
 
 Init == rec = <<>> /\ mode \in {"fields", "rules", "hist"}
